@@ -29,7 +29,9 @@ META = {
             'flags) / prepared (bind columns x global spec x pk indexes x result metadata x metadata ids), EVENT topology/status/schema, '
             'SUPPORTED, READY, AUTHENTICATE, AUTH_CHALLENGE, AUTH_SUCCESS, each with every subset of {tracing id, warnings, custom '
             'payload} x compression (thorough: additionally x stream ids {0,1,max} x beta flag and empty warnings / payload). Frames come from vt.spec.frames.build_response; the '
-            'decoded message fields, to_exception() type and attributes and summary_msg() must equal the description.',
+            'decoded message fields, to_exception() type and attributes and summary_msg() must equal the description.  Histories: for '
+            'every ordered pair of 9 field types, two RESULTs describing the same user type name with the other field type are decoded '
+            'one after the other in one process (type dropped and re-created); the second must decode as sent.',
     'note': 'Trusted base: vt/spec/frames.py.  A table in this check states which message / exception class and attribute names the '
             'driver documents for each error code.  Cell values use a minimal codec (int, bigint, varchar, ascii, blob, list, set, '
             'map, tuple, UDT, custom); value codecs as such are C01/C02.',
@@ -643,6 +645,42 @@ def deco_trigger(env, v, desc, deco, field, kindf):
     return None
 
 
+REDEF_FIELDS = [('int', 7), ('varchar', 'x'), (('list', 'int'), [1, 2]), (('list', 'varchar'), ['a', 'b']), (('set', 'int'), [3]),
+                (('map', 'varchar', 'bigint'), {'k': 5}), (('map', 'int', 'varchar'), {1: 'v'}),
+                (('tuple', ['int', 'blob']), (3, b'q')), (('tuple', ['varchar', 'blob']), ('s', b'q'))]
+
+
+def redefinition_histories(env, part):
+    """Two RESULTs decoded one after the other in one process, describing the same user type name with the same field
+    names but another field type (the type was dropped and re-created): the second must be decoded as sent."""
+    for v in (3, 4, 5):
+        for (ta, va), (tb, vb) in itertools.permutations(REDEF_FIELDS, 2):
+            descs = []
+            for t, val in ((ta, va), (tb, vb)):
+                udt = ('udt', 'ks', 'redef', [('f', t), ('g', 'int')])
+                meta = {'global_spec': False, 'paging_state': None, 'no_metadata': False, 'new_metadata_id': None, 'continuous': None}
+                descs.append({'op': 'RESULT', 'kind': 'rows', 'colset': 'redefined-udt', 'cols': [('ks', 't', 'u', udt)],
+                              'rows': [[(val, 1)]], 'meta': meta})
+            env.ct.UserType._cache.pop(('ks', 'redef'), None)
+            alone, _ = evaluate(env, v, descs[1], BARE)
+            env.ct.UserType._cache.pop(('ks', 'redef'), None)
+            evaluate(env, v, descs[0], BARE)
+            probs, frame = evaluate(env, v, descs[1], BARE)
+            env.ct.UserType._cache.pop(('ks', 'redef'), None)
+            part.count('evaluations')
+            part.count('redefinition_histories')
+            part.count('distinct_nontrivial')
+            part.outcome('RESULT.rows after-redefinition %s' % ('ok' if not probs else 'FAIL'))
+            known = set((f, k) for f, k, _ in alone)
+            for field, kindf, what in probs:
+                if (field, kindf) in known:
+                    continue
+                part.violation('C04/RESULT.rows/%s/%s/after-redefinition' % (field, kindf),
+                               'protocol version %d: after a RESULT describing ks.redef with field f of type %r, a RESULT describing it '
+                               'with f of type %r: %s; frame=%s' % (v, ta, tb, what, frame.hex()[:300]),
+                               {'redefinition': True, 'version': v, 'first': [ta, va], 'second': [tb, vb]})
+
+
 def run_chunk(args):
     """Worker `idx` of `n`: walks the whole enumeration and takes every n-th case."""
     tier, idx, n = args
@@ -657,6 +695,8 @@ def run_chunk(args):
                 if j % n != idx:
                     continue
                 _one(env, part, seen_fp, group, v, tier, i, desc, deco)
+    if idx == 0:
+        redefinition_histories(env, part)
     return part
 
 
@@ -720,6 +760,12 @@ def run(ctx):
 
 def replay(ctx, data):
     env = Env.get()
+    if data.get('redefinition'):
+        part = Part()
+        redefinition_histories(env, part)
+        for fp, what, _ in part.violations:
+            print(fp, '::', what)
+        return bool(part.violations)
     for i, desc, deco in cases(data['group'], data['version'], data['tier']):
         if i == data['index']:
             probs, frame = evaluate(env, data['version'], desc, deco)
